@@ -16,11 +16,12 @@
 From Typ Require Import Lib.Base Slices.SortSearch Slices.SortSearchProofs Slices.Sort Slices.SortProofs.
 
 (* The contracts assumed of sort.Sort, sort.Stable and rand.Shuffle are
-   satisfiable: by the insertion sort over sort.Interface and the recorded-swaps
-   generator that the correspondence check runs the model with. *)
+   satisfiable: by the insertion sort over sort.Interface (which the
+   correspondence check runs the model with) and by a Fisher-Yates shuffle
+   driven by a stream of numbers. *)
 Theorem C15_contracts_satisfiable :
-  sort_spec insertion_sort /\ stable_spec insertion_sort /\ shuffle_spec list_shuffle_swaps.
-Proof. exact (conj insertion_sort_sort_spec (conj insertion_sort_stable_spec list_shuffle_swaps_spec)). Qed.
+  sort_spec insertion_sort /\ stable_spec insertion_sort /\ shuffle_spec fisher_yates_swaps.
+Proof. exact (conj insertion_sort_sort_spec (conj insertion_sort_stable_spec fisher_yates_swaps_spec)). Qed.
 Print Assumptions C15_contracts_satisfiable.
 
 (* The adapters present their slice to the sorter: Len is its length, Less(i,j)
@@ -142,6 +143,17 @@ Theorem C15_ascending_is_partitioned : forall (T : Type) (less : T -> T -> bool)
 Proof. exact @sorted_partitioned. Qed.
 Print Assumptions C15_ascending_is_partitioned.
 
+(* Composed: BinarySearchFunc on an ascending slice, with "a is less than the
+   target" as its less, returns the smallest index whose element is not less
+   than the target (len when there is none). *)
+Theorem C15_binary_search_func_ascending : forall (T : Type) (less : T -> T -> bool), StrictWeakOrder less ->
+  forall (l : list T) (target : T), Sorted (le_of less) l ->
+  exists r : nat, BinarySearchFunc l (fun a => less a target) = Ok (Z.of_nat r) /\ r <= length l /\
+    (forall k x, k < r -> nth_error l k = Some x -> less x target = true) /\
+    (forall k x, r <= k -> nth_error l k = Some x -> less x target = false).
+Proof. exact @BinarySearchFunc_ascending. Qed.
+Print Assumptions C15_binary_search_func_ascending.
+
 (* Shuffle and ShuffleRand return normally and leave a permutation. *)
 Theorem C15_shuffle_rand_perm : forall (T G : Type) (shuffle_swaps : G -> Z -> list (Z * Z)),
   shuffle_spec shuffle_swaps -> forall (l : list T) (g : G),
@@ -155,8 +167,24 @@ Theorem C15_shuffle_perm : forall (T G : Type) (shuffle_swaps : G -> Z -> list (
 Proof. exact @Shuffle_perm. Qed.
 Print Assumptions C15_shuffle_perm.
 
-(* ShuffleRand is a deterministic function of the supplied generator: it
-   depends on it only through the swaps rand.Shuffle derives from it. *)
+(* The correspondence check feeds the model recorded swap sequences (a plain
+   list, nothing filtered): when the recorded pairs are in range the model
+   returns a permutation; an out-of-range pair makes it panic as Go's swap
+   closure would (C15_example, last line). *)
+Theorem C15_recorded_swaps_perm : forall (T : Type) (l : list T) (g : list (Z * Z)),
+  (forall i j, In (i, j) g -> (0 <= i < lenZ l)%Z /\ (0 <= j < lenZ l)%Z) ->
+  exists l', ShuffleRand list_shuffle_swaps l g = Ok l' /\ Permutation l l'.
+Proof. exact @recorded_swaps_perm. Qed.
+Print Assumptions C15_recorded_swaps_perm.
+
+(* "ShuffleRand is a deterministic function of the supplied generator": TRUE
+   BY CONSTRUCTION OF THE MODEL, not a deep fact. In the model ShuffleRand is a
+   Gallina function of (slice, generator state) that reads no other state (in
+   particular not the global generator), and the statement below is the
+   congruence any such function satisfies. What carries the clause for the real
+   code is the harness: ShuffleRand is called on two generators built from the
+   same seed (rand.New(rand.NewSource(s)) twice) and on equal inputs, and the
+   results must be equal. *)
 Theorem C15_shuffle_rand_deterministic : forall (T G : Type) (shuffle_swaps : G -> Z -> list (Z * Z))
   (l : list T) (g1 g2 : G), shuffle_swaps g1 (lenZ l) = shuffle_swaps g2 (lenZ l) ->
   ShuffleRand shuffle_swaps l g1 = ShuffleRand shuffle_swaps l g2.
@@ -178,5 +206,8 @@ Example C15_example :
   BinarySearch (fun a b => (a >=? b)%Z) [1;3;3;3;7]%Z 3%Z = Ok 1%Z /\
   BinarySearch (fun a b => (a >=? b)%Z) [1;3;3;3;7]%Z 4%Z = Ok 4%Z /\
   BinarySearch (fun a b => (a >=? b)%Z) [1;3;3;3;7]%Z 9%Z = Ok 5%Z /\
-  ShuffleRand list_shuffle_swaps [10;20;30;40]%Z [(3,1);(2,0);(1,1)]%Z = Ok [30;40;10;20]%Z.
+  BinarySearchFunc [(1,7);(3,8);(3,9);(7,0)]%Z (fun a => key a (3,0)%Z) = Ok 1%Z /\
+  fisher_yates_swaps [5;7;2]%Z 4%Z = [(3,1);(2,1);(1,0)]%Z /\
+  ShuffleRand list_shuffle_swaps [10;20;30;40]%Z [(3,1);(2,0);(1,1)]%Z = Ok [30;40;10;20]%Z /\
+  ShuffleRand list_shuffle_swaps [10;20;30]%Z [(7,1);(2,0)]%Z = Panic IndexOutOfRange.
 Proof. vm_compute. repeat split. Qed.
